@@ -431,6 +431,34 @@ func c17Loop(p *core.Prog, r *core.Report) {
 	})
 	r.Check(!dbl, "C17-R2", fn, "Attempt incremented at most once per iteration", p.Pos(first.Pos()), "single increment per iteration", "Attempt incremented twice or outside the loop")
 
+	// what an attempt sees of the budget: RetryCount is Attempt - 1, and more
+	// retries are left only while Attempt < MaxAttempts and the policy allows one
+	if g := mustFunc(p, r, "", "RequestState", "RetryCount"); g != nil {
+		attempt := p.Field("", "RequestState", "Attempt")
+		ok := false
+		core.EachInstr(g, func(i ssa.Instruction) {
+			if ret, isRet := i.(*ssa.Return); isRet && len(ret.Results) == 1 {
+				if bo, isBo := core.ReturnValues(ret)[0].(*ssa.BinOp); isBo && bo.Op == token.SUB && core.LoadedField(bo.X) == attempt {
+					if k, isK := core.ConstInt(bo.Y); isK && k == 1 {
+						ok = true
+					}
+				}
+			}
+		})
+		r.Check(ok, "C17-R2", fname(g), "RetryCount = Attempt - 1", p.Pos(g.Pos()), "returned for a non-nil state", "the retry count an attempt sees is not its attempt number minus one")
+	}
+	if g := mustFunc(p, r, "", "RequestState", "HasRetries"); g != nil {
+		attempt := p.Field("", "RequestState", "Attempt")
+		lss, can := false, len(core.CallsIn(g, "RetryOn.CanRetry")) > 0
+		core.EachInstr(g, func(i ssa.Instruction) {
+			if bo, isBo := i.(*ssa.BinOp); isBo {
+				if bo.Op == token.LSS && core.LoadedField(bo.X) == attempt && core.LoadedField(bo.Y) == maxF || bo.Op == token.GTR && core.LoadedField(bo.Y) == attempt && core.LoadedField(bo.X) == maxF {
+					lss = true
+				}
+			}
+		})
+		r.Check(lss && can, "C17-R2", fname(g), "HasRetries = Attempt < MaxAttempts && CanRetry(err)", p.Pos(g.Pos()), "strict comparison with the budget and the policy predicate", "retries are reported as left after the last attempt of the budget (or the policy is not consulted)")
+	}
 	// default attempts
 	if g := mustFunc(p, r, "", "", "getRetryOptions"); g != nil {
 		okDef := false
